@@ -89,6 +89,10 @@ func (u *URL) EnsureValid() error {
 	} else if u.Protocol == Protocol_SSH {
 		if u.Host == "" {
 			return errors.New("SSH URL with empty hostname")
+		} else if u.Host[0] == '-' || (u.User != "" && u.User[0] == '-') {
+			// The username and hostname form the target argument passed to
+			// ssh and scp, where a leading dash would be parsed as an option.
+			return errors.New("SSH URL with username or hostname starting with '-'")
 		} else if u.Port > math.MaxUint16 {
 			return errors.New("SSH URL with invalid port")
 		} else if len(u.Environment) != 0 {
@@ -102,6 +106,10 @@ func (u *URL) EnsureValid() error {
 		// environment variables the same as unspecified ones.
 		if u.Host == "" {
 			return errors.New("Docker URL with empty container identifier")
+		} else if u.Host[0] == '-' {
+			// The container identifier is passed as an argument to docker
+			// commands, where a leading dash would be parsed as an option.
+			return errors.New("Docker URL with container identifier starting with '-'")
 		} else if u.Port != 0 {
 			return errors.New("Docker URL with non-zero port")
 		}
